@@ -124,10 +124,10 @@ Proof. exact refuted_timesubsdur_zero. Qed.
 Theorem C08_refuted_timesubsdur_spin : fx_subsdur current = false ->
   exists r, handler_model current envW r = HHang "app.calcCueItvls: loop".
 Proof. exact refuted_timesubsdur_spin. Qed.
-Theorem C08_refuted_chunkdur : fx_chunkdur current = false ->
+Theorem C08_refuted_chunkdur : fx_chunkdur current = false -> fx_chunk_cap current = false ->
   exists r, handler_model current envW r = HPanic "app.chunkSegment: integer divide by zero".
 Proof. exact refuted_chunkdur. Qed.
-Theorem C08_refuted_chunkdur_wrap : fx_chunkdur current = false ->
+Theorem C08_refuted_chunkdur_wrap : fx_chunkdur current = false -> fx_chunk_cap current = false ->
   exists r, handler_model current envW r = HPanic "app.chunkSegment: integer divide by zero".
 Proof. exact refuted_chunkdur_wrap. Qed.
 Theorem C08_refuted_chunk_sleep : fx_chunkdur current = false ->
@@ -223,6 +223,52 @@ Theorem C08_total_guarded_partial_cues : forall segStart segDur utcStart cueDur,
   hm_bad (calc_cue_itvls segStart segDur utcStart cueDur) = false.
 Proof. exact calc_cue_itvls_safe. Qed.
 Print Assumptions C08_total_guarded_partial_cues.
+
+
+(** ** The tree under test ([current]): the repairs are in, the guards are established by the code *)
+
+(** No URL whatsoever makes the parser of the current tree panic (formerly refuted by stoprel_x
+    and annexI_a). *)
+Theorem C08_parser_total_current : forall path now s, process_url_cfg current path now <> Panic s.
+Proof. exact (fun path now => parser_total_guarded current path now eq_refl eq_refl). Qed.
+Print Assumptions C08_parser_total_current.
+
+(** Every configuration the current parser returns satisfies the guards of the period split, of
+    the cue-interval loop and of the start-number comparison. *)
+Theorem C08_parser_establishes_current : forall path now c,
+  process_url_cfg current path now = Ok c ->
+  c_tsbd c <> None /\ c_startNr c <> None /\
+  match c_pph c with Some n => 1 <= n <= 3600 | None => True end /\
+  0 < c_subsDurMS c /\
+  match c_startNr c with Some n => -2147483648 <= n <= maxu32 | None => True end /\
+  0 <= now.
+Proof.
+  exact (fun path now c H =>
+    match parser_establishes current path now c H with
+    | conj a (conj b (conj p (conj d (conj s n)))) => conj a (conj b (conj (p eq_refl) (conj (d eq_refl) (conj (s eq_refl) n))))
+    end).
+Qed.
+Print Assumptions C08_parser_establishes_current.
+
+(** No licence request and no urlgen request makes the current tree panic (formerly refuted by a
+    foreign key id, tsbd=abc, /urlgen/drms without DRM configuration). *)
+Theorem C08_total_other_current : forall e r,
+  match r with RLive _ _ _ => True | _ => is_bad (handler_model current e r) = false end.
+Proof. exact (fun e r => other_requests_total_fixed current e r eq_refl eq_refl eq_refl). Qed.
+Print Assumptions C08_total_other_current.
+
+(** The traffic gate of the current tree needs no hypothesis on the BaseURL index any more. *)
+Theorem C08_traffic_current : forall c segPart now,
+  String.prefix "/" segPart = true -> cycles_ok c = true ->
+  hm_bad (traffic_gate current c segPart now) = false.
+Proof. exact (fun c segPart now P C => traffic_gate_safe current c segPart now P C (or_introl eq_refl)). Qed.
+Print Assumptions C08_traffic_current.
+
+(** What is still refuted on the current tree: the unbounded sleep of the chunked writer. *)
+Theorem C08_refuted_current_chunk_sleep :
+  exists r, handler_model current envW r = HHang "app.writeChunkedSegment: sleep".
+Proof. exact (refuted_chunk_sleep eq_refl). Qed.
+Print Assumptions C08_refuted_current_chunk_sleep.
 
 (** Non-vacuity: a hostile but well-formed URL parses to a configuration that satisfies the
     established guards, and the guarded components apply to it. *)
